@@ -118,9 +118,12 @@ def value_and_search(rnd, acc, case=None):
     for d, cls in case['dates']:
         try:
             exp = calast.ev(ast, d)
+            admissible = calast.evs(ast, d)
         except calast.Undefined:
             acc.count('undefined_divisor_zero_pairs')
             continue
+        if len(admissible) > 1:
+            acc.count('pairs_with_several_admissible_values')
         try:
             got = cal.get_available_units(d)
             err = None
@@ -134,14 +137,14 @@ def value_and_search(rnd, acc, case=None):
             acc.sig('v', shp, cls)
         if err is not None:
             acc.violation(f'C17/value-raised-{type(err).__name__}/{ast[0]}', f'{shp}.get_available_units({d}) raised {type(err).__name__}: {err}', _one(case, d, cls))
-        elif not close(got, exp):
-            acc.violation(f'C17/value/{_blame(ast, d)}/{cls}', f'{shp}.get_available_units({d}) = {got!r}, reference {exp!r}', _one(case, d, cls))
+        elif not any(close(got, e_) for e_ in admissible):
+            acc.violation(f'C17/value/{_blame(ast, d)}/{cls}', f'{shp}.get_available_units({d}) = {got!r}, admissible {sorted(admissible, key=repr)!r}', _one(case, d, cls))
         # resource level
         r = Resource('r', cal)
         try:
             u = r.get_available_units(d)
             acc.count('resource_checks')
-            if u is None or not close(u, 0 if exp is None else exp):
+            if u is None or not any(close(u, 0 if e_ is None else e_) for e_ in admissible):
                 acc.violation('C17/resource-units', f'Resource.get_available_units({d}) = {u!r}, calendar value {exp!r}', _one(case, d, cls))
         except Exception as e:
             acc.violation(f'C17/resource-raised-{type(e).__name__}', f'Resource.get_available_units({d}) raised {e}', _one(case, d, cls))
@@ -152,15 +155,24 @@ def value_and_search(rnd, acc, case=None):
         exp = None
         undefined = False
         skipped = 0
+        ambiguous = False
         try:
             for o in range(horizon):
                 x = d0 + td(days=o * dirn)
-                if calast.cap(ast, x if dirn > 0 else x - td(days=1)) > 0:
+                cs_ = calast.caps(ast, x if dirn > 0 else x - td(days=1))
+                pos = {c_ > 0 for c_ in cs_}
+                if len(pos) > 1:
+                    ambiguous = True          # the statement admits readings with and without capacity on this day
+                    break
+                if True in pos:
                     exp = x
                     break
                 skipped += 1
         except calast.Undefined:
             undefined = True
+        if ambiguous:
+            acc.count('search_ambiguous_skipped')
+            continue
         if undefined:
             acc.count('search_undefined_skipped')
             continue
@@ -201,7 +213,7 @@ def _blame(ast, d):
                 if sub[0] == 'num':
                     continue
                 try:
-                    if not close(calast.build(sub).get_available_units(d), calast.ev(sub, d)):
+                    if not any(close(calast.build(sub).get_available_units(d), e_) for e_ in calast.evs(sub, d)):
                         return _blame(sub, d)
                 except calast.Undefined:
                     pass
